@@ -134,6 +134,33 @@ def same_type_columns():
     return len(checks), bad
 
 
+def inner_order_kept():
+    """The rows of FROM (subquery ORDER BY ...) arrive in the subquery's order: an outer ORDER BY with ties, an outer
+    first()/last(), DISTINCT and LIMIT all see that order (oracle: stable sort of the inner result in Python)."""
+    rows = [(1, 5, 'e'), (2, 4, 'd'), (1, 3, 'c'), (2, 2, 'b'), (1, 1, 'a'), (3, 0, 'z')]
+    t = impl.make_table('t', [('a', int), ('b', int), ('s', str)], rows)
+    conn = impl.connection({'t': t})
+    inner_sorted = sorted(rows, key=lambda r: r[1])            # ORDER BY b
+    inner = 'SELECT a AS c0, b AS c1, s AS c2 FROM #t ORDER BY b'
+    checks = [
+        (f'SELECT c0, c2 FROM ({inner}) ORDER BY c0', [(r[0], r[2]) for r in sorted(inner_sorted, key=lambda r: r[0])]),
+        (f'SELECT c0, c2 FROM ({inner}) ORDER BY c0 DESC', [(r[0], r[2]) for r in sorted(inner_sorted, key=lambda r: -r[0])]),
+        (f'SELECT c0, first(c2), last(c2) FROM ({inner}) GROUP BY c0 ORDER BY c0', [(1, 'a', 'e'), (2, 'b', 'd'), (3, 'z', 'z')]),
+        (f'SELECT c0, c2 FROM (SELECT c0, c1, c2 FROM ({inner})) ORDER BY c0', [(r[0], r[2]) for r in sorted(inner_sorted, key=lambda r: r[0])]),
+        (f'SELECT c0, c2 FROM (SELECT DISTINCT a AS c0, s AS c2, b AS c1 FROM #t ORDER BY 3 DESC) ORDER BY c0',
+         [(r[0], r[2]) for r in sorted(sorted(rows, key=lambda r: -r[1]), key=lambda r: r[0])]),
+    ]
+    bad = []
+    for sql, want in checks:
+        try:
+            got = conn.execute(sql).fetchall()
+        except Exception as e:  # noqa: BLE001
+            got = repr(e)
+        if got != want:
+            bad.append((sql, got, want))
+    return len(checks), bad
+
+
 def nested_in_three_tables():
     """x IN (SELECT .. FROM #u WHERE .. IN (SELECT .. FROM #v)) followed by more uses of the OUTER table's columns."""
     t = impl.make_table('t', [('a', int), ('y', int)], [(1, 10), (2, 20), (3, 30), (4, 40)])
@@ -242,7 +269,7 @@ def run(tier, rng):
             violations.append(core.Violation('in-subquery', f'{c["sql"]} with #t={c["rows"]} #u={c["urows"]}: implementation {io} '
                                              f'but membership semantics (model) give {m}',
                                              {'kind': 'in', 'case': {k: v for k, v in c.items()}, 'impl': io, 'model': m}, signature=sig))
-    for fn, kind in ((same_type_columns, 'subquery-column-identity'), (nested_in_three_tables, 'nested-in')):
+    for fn, kind in ((same_type_columns, 'subquery-column-identity'), (nested_in_three_tables, 'nested-in'), (inner_order_kept, 'inner-order')):
         nchk, cbad = fn()
         for sql, got, want in cbad[:2]:
             violations.append(core.Violation(kind, f'{sql}: got {got}, expected {want}', {'kind': kind, 'sql': sql, 'got': got, 'want': want},
